@@ -94,6 +94,22 @@ Definition delimited (m : msg) : Prop :=
   | UntilClose => False
   end.
 
+(* ---------------------------------------------------------------- Part 1b: closing decision *)
+
+(* Valet.serviceReps, per connection: what it looks at before closeConnection(ca).
+   FIXED behaviour (fixes/C31-close-before-request-body.patch); [may_close_unfixed] is the code
+   as found, which ignores whether the next request is still being parsed. *)
+Record vconn := {
+  v_responder_ended : bool;     (* Responder.ended -- of the LAST response started            *)
+  v_persisted : bool;           (* Requestant.persisted -- set when a head has been parsed   *)
+  v_parsing : bool;             (* Requestant.parser is not None: a request is in progress   *)
+  v_txes_empty : bool           (* everything queued has been sent                           *)
+}.
+Definition may_close (c : vconn) : bool :=
+  v_responder_ended c && negb (v_persisted c) && negb (v_parsing c) && v_txes_empty c.
+Definition may_close_unfixed (c : vconn) : bool :=
+  v_responder_ended c && negb (v_persisted c) && v_txes_empty c.
+
 (* ---------------------------------------------------------------- Part 2: the connection *)
 
 Section Session.
